@@ -58,6 +58,18 @@ pub fn drive(tr: &mut Tracer, rng: &mut StdRng, thorough: bool) {
         prec_events(tr, rng, &dec(true, "42", 0), n, false);
         prec_events(tr, rng, &dec(false, "7", -10), n.saturating_sub(10), false);
     }
+    // ties and near ties decided far away: N digits kept (the last one even or odd), then 5, a long run of zeros, then
+    // nothing (exact tie) or one unit 30..90 places further down (just above the tie); the mirrored 4999...9 below it
+    for i in 0..(if thorough { 1200 } else { 200 }) {
+        let nn = i % 7;
+        let il = 1 + i % 3;
+        let head = rand_digits(rng, il + nn);
+        let gap = 30 + (i * 7) % 61;
+        let tail = match i % 3 { 0 => format!("5{}", "0".repeat(gap)), 1 => format!("5{}1", "0".repeat(gap)), _ => format!("4{}", "9".repeat(gap + 1)) };
+        let digits = format!("{}{}", head, tail);
+        let a = dec(i % 2 == 1, &digits, (nn + tail.len()) as i64);
+        prec_events(tr, rng, &a, nn, i % 5 == 0);
+    }
     // random: up to 300 digits, scales -1100..400, N in 0..1100, ties, all nines, tiny values
     let n = if thorough { 40000 } else { 6000 };
     for i in 0..n {
